@@ -50,7 +50,10 @@ type Config struct {
 	Twin             bool           `json:"twin,omitempty"`
 	KubeProgressOnly bool           `json:"kube_progress_only,omitempty"`
 	ScaleInWatch     bool           `json:"scale_in_watch,omitempty"`
-	Upg              *UpgCfg        `json:"upg,omitempty"`
+	// UnpauseAtQuiesce: the user lifts every pause before the quiesce phase, so
+	// that resumption and convergence after a pause are demanded (C11)
+	UnpauseAtQuiesce bool    `json:"unpause_at_quiesce,omitempty"`
+	Upg              *UpgCfg `json:"upg,omitempty"`
 }
 
 // BuildSet returns the object a user submits for cfg.
